@@ -235,6 +235,7 @@ func RunV1(c Case, deadline time.Duration) Obs {
 		}
 	}
 	x.sched.FreeRun()
+	x.flushAcks()
 	o.Log = x.log.Snapshot()
 	o.RunID = x.log.id
 	rmu.Lock()
